@@ -70,26 +70,30 @@ CLAIMED = {
              "str(feature) is the line byte for byte (C07_print_identity). The percent-quoting table is regenerated from parser.py "
              "on every run. Tied to parser.py/feature.py by 4k generated lines per quick run over all styles with an adversarial "
              "alphabet: the harness's own renderer, the Gallina writer, the model parser/printer and the implementation must all "
-             "agree; the strict=False space-separated rendering is decided by the correspondence.",
+             "agree. C07_nonstrict: the line written with runs of blanks instead of tabs and surrounded by arbitrary white space "
+             "(every str.splitlines boundary included) parses with strict=False to the same Feature (models of splitlines, "
+             "strip, split(None, 8)).",
         note="Trusted: Coq kernel + vm_compute; Model/Parser.v (hand model of _split_keyvals inference path, _reconstruct, "
              "feature_from_line, Feature.__str__) and Base/Utf8.v, Base/WordTable.v (CPython's \\w table) are tied to the code by the "
              "correspondence; _to_quote is translator-generated. Domain (boolean wf_feature, inhabited in all 36 styles, "
              "Examples/C07_inhabited.v): ASCII-word keys, unique; values non-empty without white space at the ends; no ; , \" tab "
              "CR LF in quoted-GTF values; bare values free of reserved characters; a joined unquoted value must not look quoted; "
-             "first key=value attribute not a flag; canonical decimal coordinates. The strict=False statement is not a theorem.",
+             "first key=value attribute not a flag; canonical decimal coordinates; for strict=False additionally no blanks inside "
+             "columns 1-8, no extra columns, no line-break characters in the attribute column.",
         technique="Coq proof (parse o render = id and print o parse = id for all styles) + differential correspondence over all styles",
         design="4 (C07)"),
     "C08": dict(
         text="Coq theorems (Properties/C08.v, closed under the global context): unquote(quote s) = s for every string over "
              "all code points with the percent-encoding table regenerated from parser.py on every run; encoded text is free of "
              "tab/newline/CR/;/=/,/&; split_with D (reconstruct m D) = Ok m for ALL mappings of the property (word-like unique "
-             "keys, non-empty lists of non-empty unicode strings) and all 24 GFF3-style dialects; the supplied-dialect parser is "
-             "total. The GTF-standard round trip, the nine-column framing of the printed line and totality of the inference "
+             "keys, non-empty lists of non-empty unicode strings) and all 24 GFF3-style dialects, and for all 12 standard GTF "
+             "dialects on values free of ; \" , and control characters (C08_roundtrip_gtf); the supplied-dialect parser is "
+             "total. The nine-column framing of the printed line and totality of the inference "
              "path against the real parser are decided by the correspondence (6k mappings x 48 dialects, every string up to "
              "length 6 over the structural alphabet screened through both parser paths).",
         note="Trusted: Coq kernel + vm_compute; Model/Parser.v (hand model of _split_keyvals/_reconstruct/Feature.__str__) and "
              "Base/Utf8.v (model of urllib.parse.unquote + UTF-8 'replace') are tied to the code by the correspondence only; "
-             "_to_quote is translator-generated. GTF-style round trip is not yet a theorem (correspondence only). Known finding "
+             "_to_quote is translator-generated. Totality of the inference path is decided by the correspondence only. Known finding "
              "F16 (non-standard GTF dialects) is recorded with a Coq refutation witness (Examples/C08_inhabited.v).",
         technique="Coq proof (codec round-trip theorems over generated quoting table) + differential correspondence incl. exhaustive short strings",
         design="4 (C08)"),
